@@ -357,6 +357,12 @@ def opNormpath (req : Json) : Except String Json := do
   let ps ← strList (← field req "paths")
   pure (okJson (.arr (ps.map (fun p => ofStr (normpath p))).toArray))
 
+/-- Which of the given file names count as preliminary records of `step` (key id not known up front). -/
+def opPrelimSelect (req : Json) : Except String Json := do
+  let step ← toStr (← field req "step")
+  let files ← strList (← field req "files")
+  pure (okJson (.arr ((files.filter (selectsPrelim step)).map ofStr).toArray))
+
 def opMatchProducts (req : Json) : Except String Json := do
   let products ← artifactsOf (← field req "products")
   let localArts ← artifactsOf (← field req "local")
@@ -680,6 +686,7 @@ def dispatch (op : String) (req : Json) : Except String Json :=
   | "read_payload" => opReadPayload req
   | "record" => opRecord req
   | "normpath" => opNormpath req
+  | "prelim_select" => opPrelimSelect req
   | "match_products" => opMatchProducts req
   | "streams" => opStreams req
   | "effects" => opEffects req
